@@ -162,7 +162,8 @@ impl ParsedData {
                 self.aliases.push(a);
             }
             RustItem::Const(c) => {
-                self.type_names.insert(c.id.renamed.clone());
+                // a constant is not a type: no other file can refer to it in a type position,
+                // so it must not appear in the table import statements are generated from
                 self.consts.push(c);
             }
         }
